@@ -396,6 +396,10 @@ def run(ctx):
     ctx.guard("bits-all", "scalar32", lambda: check_bits_all(ctx, P2, "scalar32"))
     ctx.guard("table", "BI/fe32", lambda: C15.check_tables(ctx, P2, "fe32"))
     ctx.guard("verify", "ed25519::verify/K2", lambda: check_verify(ctx, P2))
+    # verification decompresses A and runs the double-base multiplication on lazily carried fe32 limbs: operand contracts of
+    # the field operations and their use at every call site of the group code (shared with C13 / C15 / C17 / C20)
+    from . import febounds
+    ctx.guard("fe-bounds", "fe32", lambda: febounds.check_fe32(ctx, P2, "K2"))
     ctx.guard("sign-convention", "verify x decode", lambda: check_convention(ctx, P))
     # "every signature produced by signing verifies under the matching public key": the key derivations and the
     # signing equation (rule instances shared with C13), and the 32-bit backend's scalar arithmetic used by both sides
